@@ -1,6 +1,8 @@
 import ColaVerif.Lemmas.AnnotSound
 import ColaVerif.Lemmas.OpAlgebra
 import ColaVerif.Lemmas.AnnotReal
+import ColaVerif.Lemmas.AnnotClause
+import ColaVerif.Lemmas.AnnotWitnesses
 import Mathlib.Analysis.Complex.Basic
 
 /-!
@@ -151,7 +153,52 @@ theorem C05_gramReal_needed :
     simp [gramWitness, Op.den, Op.rows, Op.cols, mmul, sumTo, eyeM, transposeM] at h0
     linarith
 
-/-! ## the hypotheses are satisfiable on a non-trivial tree -/
+/-! ## the clause the driver prints is the negated hypothesis -/
+
+omit [RCLike 𝕜] in
+/-- `Op.scalarTimesAnn` (Model/Wf.lean — what the driver evaluates for its `clauses` output) and
+`Op.scalarTimesAnnotated` (the hypothesis `NoScalarTimesAnnotated` of the theorems above) are the
+same function on every tree -/
+theorem C05_clause_defs_agree (A : Op 𝕜) : A.scalarTimesAnn = A.scalarTimesAnnotated :=
+  Op.scalarTimesAnn_eq A
+
+omit [RCLike 𝕜] in
+/-- the driver prints `scalar-times-annotated` exactly for the trees the theorems exclude -/
+theorem C05_clause_printed_iff (A : Op 𝕜) :
+    "scalar-times-annotated" ∈ A.clauses ↔ ¬ A.NoScalarTimesAnnotated := Op.clauses_scalar_iff A
+
+/-! ## the hypotheses are satisfiable on non-trivial trees -/
+
+/-- **witness (declared PSD, Gram rule, Kronecker rule; complex, non-diagonal)**: `psdWitness` =
+`PSD(Dense [[1, i], [-i, 2]]) ⊗ (Aᴴ @ A)` with a 3 × 2 complex `A` satisfies the whole hypothesis
+bundle, reports PSD, and `C05_sound_partial` applies: the represented 4 × 4 matrix is PSD -/
+theorem C05_witness_psd_gram :
+    psdWitness.wf = true ∧ psdWitness.LeavesTrue ∧ psdWitness.NoScalarTimesAnnotated ∧
+      psdWitness.GramTransposeReal ∧ Ann.psd ∈ psdWitness.anns ∧
+      Holds .psd 4 4 psdWitness.den.f := by
+  obtain ⟨h1, h2, h3, h4, h5, h6, h7⟩ := psdWitness_hyps
+  refine ⟨h1, h2, h3, h4, h5, ?_⟩
+  have := C05_sound_partial psdWitness h1 h2 h3 h4 _ h5
+  rwa [h6, h7] at this
+
+/-- **witness (Unitary composite)**: `unitaryWitness` = `Permutation([1, 0]) @
+Unitary(Householder((3/5, 4/5), 2))` satisfies the bundle, reports Unitary through the Product rule,
+and the theorem applies: the represented 2 × 2 matrix is orthogonal -/
+theorem C05_witness_unitary :
+    unitaryWitness.wf = true ∧ unitaryWitness.LeavesTrue ∧ unitaryWitness.NoScalarTimesAnnotated ∧
+      unitaryWitness.GramTransposeReal ∧ Ann.unitary ∈ unitaryWitness.anns ∧
+      Holds .unitary 2 2 unitaryWitness.den.f := by
+  obtain ⟨h1, h2, h3, h4, h5, h6, h7⟩ := unitaryWitness_hyps
+  refine ⟨h1, h2, h3, h4, h5, ?_⟩
+  have := C05_sound_partial unitaryWitness h1 h2 h3 h4 _ h5
+  rwa [h6, h7] at this
+
+/-- … and `HermOK` of C01 / C02 follows for the PSD witness at every node (`C05_hermOK`) -/
+theorem C05_witness_hermOK : psdWitness.HermOK ∧ psdWitness.isa .selfAdjoint = true := by
+  obtain ⟨h1, h2, h3, h4, h5, _, _⟩ := psdWitness_hyps
+  refine ⟨C05_hermOK psdWitness h1 h2 h3 h4, ?_⟩
+  simp only [Op.isa, AnnSet.isa, List.any_eq_true]
+  exact ⟨.psd, h5, by simp [Ann.sub]⟩
 
 /-- Kronecker product of a declared-PSD `2 × 2` leaf and a declared-PSD (and, redundantly,
 declared-SelfAdjoint) `1 × 1` leaf -/
@@ -199,3 +246,8 @@ end C05
 #print axioms C05.C05_declare_leaves
 #print axioms C05.C05_clause_needed
 #print axioms C05.C05_gramReal_needed
+#print axioms C05.C05_clause_defs_agree
+#print axioms C05.C05_clause_printed_iff
+#print axioms C05.C05_witness_psd_gram
+#print axioms C05.C05_witness_unitary
+#print axioms C05.C05_witness_hermOK
